@@ -1492,7 +1492,7 @@ func init() {
 			NotDecided:  []string{"values equal the path substrings; values satisfy the variable's regex; empty string for absent optional parts (run-time regexp behaviour)"},
 			Assumptions: []string{"regexp.FindAllStringSubmatch returns 1+NumSubexp entries per match (documented)"},
 		},
-		Rules: []ruleFn{{"C02-ALIGN", ruleC02Align}, {"C02-KEYS", ruleC02Keys}, {"C02-GROUPS", ruleC02Groups}, {"C02-WRITERS", ruleC02Writers}, {"C02-CACHE", ruleC02Cache("C02-CACHE")}, {"C07-NODE", ruleCacheStruct("C07")}, {"C07-KEY", ruleCacheKey("C07-KEY")}, {"C01-ANCHOR", ruleC01Anchor}, {"C01-GRAMMAR", ruleC01Grammar}, {"C01-REGEX", ruleC01Regex}, {"C03-POOL", ruleC03Pool}},
+		Rules: []ruleFn{{"C02-ALIGN", ruleC02Align}, {"C02-KEYS", ruleC02Keys}, {"C02-GROUPS", ruleC02Groups}, {"C02-WRITERS", ruleC02Writers}, {"C02-CACHE", ruleC02Cache("C02-CACHE")}, {"C07-NODE", ruleCacheStruct("C07")}, {"C07-KEY", ruleCacheKey("C07-KEY")}, {"C01-ANCHOR", ruleC01Anchor}, {"C01-GRAMMAR", ruleC01Grammar}, {"C01-REGEX", ruleC01Regex}, {"C03-POOL", ruleC03Pool}, {"C02-STATIC", ruleC02Static("C02-STATIC")}},
 	})
 }
 
